@@ -7,6 +7,7 @@
 // Compile-time switches: -DBH_WORD=0 etl::bitset | 8|16|32|64 etl::basic_bitset<N, uintXX_t>
 //                        -DBH_WIDTHS=1,2,3     widths compiled in
 #include "common.hpp"
+#include <sys/time.h>
 #include "contain.hpp"
 
 #include <bitset>
@@ -331,7 +332,7 @@ struct Runner {
             "ctor_sv2", "ctor_sv3", "ctor_sv5", "ctor_cstr1", "ctor_cstr2", "ctor_cstr4"};
         constexpr long nops = (long)(sizeof(ops) / sizeof(ops[0]));
         reset();
-        alarm(120);
+        { struct itimerval tv{{0, 0}, {120, 0}}; setitimer(ITIMER_VIRTUAL, &tv, nullptr); } // CPU time, not wall-clock
         for (long i = 0; i < steps; ++i) {
             Call c;
             c.op = ops[rng.range(0, nops - 1)];
